@@ -3,6 +3,7 @@ package main
 import (
 	"fmt"
 	"go/token"
+	"go/types"
 	"sort"
 	"strings"
 
@@ -918,46 +919,58 @@ func c11R3(c *Ctx) {
 	c.minCount(rule, "file/context error sites", n, 5)
 }
 
-// errorPropagated: on the err != nil edge of call, every path ends in a return with a non-nil error.
+// errorPropagated: on the error edge of call (err != nil true edge, or err == nil false edge), every path ends in a
+// return with a non-nil error.
 func (c *Ctx) errorPropagated(call *ssa.Call) (bool, []string) {
-	var ifi *ssa.If
-	for _, ref := range *call.Referrers() {
-		ex, ok := ref.(*ssa.Extract)
-		var errV ssa.Value
-		if ok && ex.Index == call.Type().(interface{ Len() int }).Len()-1 {
-			errV = ex
-		}
-		if errV == nil {
-			continue
-		}
-		for _, r2 := range *errV.Referrers() {
-			if b, ok := r2.(*ssa.BinOp); ok && b.Op == token.NEQ && isNilConst(b.Y) {
-				for _, r3 := range *b.Referrers() {
-					if i3, ok := r3.(*ssa.If); ok {
-						ifi = i3
-					}
-				}
+	var errBlock *ssa.BasicBlock
+	var errV ssa.Value
+	if t, ok := call.Type().(*types.Tuple); ok {
+		for _, ref := range *call.Referrers() {
+			if ex, ok := ref.(*ssa.Extract); ok && ex.Index == t.Len()-1 {
+				errV = ex
 			}
 		}
+	} else {
+		errV = call
 	}
-	if ifi == nil {
-		// single error result used directly
-		if call.Referrers() != nil {
-			for _, r2 := range *call.Referrers() {
-				if b, ok := r2.(*ssa.BinOp); ok && b.Op == token.NEQ && isNilConst(b.Y) {
-					for _, r3 := range *b.Referrers() {
+	if errV == nil || errV.Referrers() == nil {
+		return false, []string{"the error result is discarded"}
+	}
+	var find func(v ssa.Value, depth int)
+	find = func(v ssa.Value, depth int) {
+		if depth > 3 || v.Referrers() == nil || errBlock != nil {
+			return
+		}
+		for _, r2 := range *v.Referrers() {
+			switch x := r2.(type) {
+			case *ssa.BinOp:
+				if (x.Op == token.NEQ || x.Op == token.EQL) && (isNilConst(x.Y) || isNilConst(x.X)) {
+					for _, r3 := range *x.Referrers() {
 						if i3, ok := r3.(*ssa.If); ok {
-							ifi = i3
+							if x.Op == token.NEQ {
+								errBlock = i3.Block().Succs[0]
+							} else {
+								errBlock = i3.Block().Succs[1]
+							}
+						}
+					}
+				}
+			case *ssa.Store:
+				// stored into a local (named result / outer variable) and tested through a load
+				if al, ok := x.Addr.(*ssa.Alloc); ok && x.Val == v && al.Referrers() != nil {
+					for _, r4 := range *al.Referrers() {
+						if u, ok := r4.(*ssa.UnOp); ok && dominates(x, u) {
+							find(u, depth+1)
 						}
 					}
 				}
 			}
 		}
 	}
-	if ifi == nil {
+	find(errV, 0)
+	if errBlock == nil {
 		return false, []string{"the error result is never tested"}
 	}
-	errBlock := ifi.Block().Succs[0]
 	p := c.findPathFrom(errBlock, 0, func(in ssa.Instruction) bool {
 		ret, ok := in.(*ssa.Return)
 		if !ok {
@@ -965,16 +978,10 @@ func (c *Ctx) errorPropagated(call *ssa.Call) (bool, []string) {
 		}
 		res := retResults(ret)
 		return len(res) > 0 && !isNilConst(res[len(res)-1])
-	}, func(in ssa.Instruction) bool {
-		if isReturn(in) {
-			return true
-		}
-		return false
-	})
+	}, isReturn)
 	if p != nil {
 		return false, p
 	}
-	// the error edge must not fall back into normal flow: the error block must not reach the If's other successor
 	return true, nil
 }
 
